@@ -1,5 +1,6 @@
 """Collection of handy utilities."""
 
+import operator
 import numpy as np
 from functools import lru_cache
 import scipy.fft
@@ -68,6 +69,7 @@ def real_to_complex(z, axis=0):
 @lru_cache(maxsize=1024)
 def next_fast_len(N):
     """Returns smallest 7-smooth number >= N."""
+    N = operator.index(N)  # fixed-width NumPy integers would overflow below
     if N <= 10:
         return N
 
@@ -100,6 +102,7 @@ def next_fast_len(N):
 @lru_cache(maxsize=1024)
 def prev_fast_len(N):
     """Returns largest 7-smooth number <= N."""
+    N = operator.index(N)  # fixed-width NumPy integers would overflow below
     if N <= 10:
         return N
 
